@@ -578,11 +578,15 @@ func calculateHashes(numLeaves uint64, delHashes []Hash, proof Proof) (hashAndPo
 		// Keep incrementing the row if the current position is greater
 		// than the max position on this row.
 		//
-		// Cannot error out here because this loop already checks that
-		// row is lower than totalRows.
+		// A position that's greater than the max position of every row doesn't
+		// exist in the forest. Error out instead of looping forever.
 		maxPos, _ := maxPositionAtRow(row, totalRows, numLeaves)
 		for provePos > maxPos {
 			row++
+			if row > totalRows {
+				return hashAndPos{}, nil, fmt.Errorf("invalid proof. Position %d "+
+					"doesn't exist in a forest with %d leaves", provePos, numLeaves)
+			}
 			maxPos, _ = maxPositionAtRow(row, totalRows, numLeaves)
 		}
 
